@@ -17,10 +17,11 @@ every link of the chain; the oracle re-derives the Gram form in Fractions.
 from fractions import Fraction
 import numpy as np
 from common import Case, Failure, clist, parse_clist, flist, parse_flist, call, close_vec
+import ar_fam
 
 PID = 'C10'
 LEAN_TARGETS = ['Nitime.Props.C10']
-RULE = ('every routine is also run in call sequences on the same argument objects (>=3 evaluations in mixed order, results scribbled over, arrays refilled in place; C12: several live analyzers read in interleaved order); cases from one PRNG state: signals real / complex / strongly coloured (AR-filtered noise, pole radius to 0.97), '
+RULE = ('session 3: every entry point also on integer (int16/int32/int64), float32, complex64, big-endian, strided and read-only signals / autocorrelation / coefficient / noise arrays (model line and oracle work from the values converted to float64 - exact; single precision judged at 2e-5); programs of AR_est_LD / AR_est_YW calls on ONE supplied array in every order (op seq: outputs of every call, the array afterwards); keyword arguments of autocorr / autocov (axis on 2-d inputs, all_lags, debias, normalize; op acopt); AR_psd / ar_generator with arguments left at their defaults and integer sigma; a supplied rxx together with a signal; amplitudes 1e-150..1e150 judged against the same input scaled by an exact power of two; nearly singular Toeplitz systems (cond to 1e9, tolerance scaled); a perturbation phase (other options, results overwritten) followed by a re-run of a sample of the cases on fresh objects; every routine is also run in call sequences on the same argument objects (>=3 evaluations in mixed order, results scribbled over, arrays refilled in place; C12: several live analyzers read in interleaved order); cases from one PRNG state: signals real / complex / strongly coloured (AR-filtered noise, pole radius to 0.97), '
         'N in 16..256 (quick) or ..4096 (thorough), orders 1..min(16,N/4); estimators LD and YW with computed and supplied '
         '(biased, unbiased, exact-AR) autocorrelation; AR_psd for sides x parity x real/complex stable coefficient sets; '
         'Gram identity c^H toeplitz(autocorr(x)) c = (1/N) sum |c*x|^2 on real/complex/coloured signals x random, sparse, leading-zero and prediction-error filters (binary64) and on small-integer dyadic signals in exact rational arithmetic (also orders >= N); AR_est_LD vs the exact-rational run of the model with all links of the stability chain evaluated exactly; '
@@ -32,6 +33,8 @@ ASSUMPTIONS = ['order >= 1 and at least order+1 autocorrelation lags are availab
                'stability is PROVED for every non-zero signal and every order on the computed (biased) autocorrelation path over the complex numbers (arLD_stable_of_signal) and for supplied rxx under the hypothesis that toeplitz(rxx[:p+1]) is positive definite (arLD_stable_of_pd); NOT covered by proof: a supplied rxx that is not positive definite (e.g. the unbiased estimate: no stability claim is made or checked there) and rounding (Float vs the complex numbers) - the numpy.roots / sigma > 0 certificate still runs on the binary64 results of every estimate from a biased or exact autocorrelation',
                'sigma_v >= 0 in AR_psd (sqrt of a real number)']
 TRUSTED_EXTRA = [
+    'scipy.linalg (1.18) misreads non-native byte order: a big-endian rxx handed to AR_est_YW is not generated (big-endian SIGNALS are)',
+    'integer-typed supplied rxx: AR_est_LD truncates (finding est/*/supplied/int-dtype/*, proposed_fixes/C10-ld-integer-rxx.diff); those cases are generated once the key is registered in known_findings.json',
     'Float (complex binary64) instance of the Scalar-polymorphic model approximates the ℂ instance the theorems are about (unproved; bounded by the 1e-9 comparison)',
     'scipy.signal.fftconvolve modelled as the direct lagged sum (autocorrDirect); compared on every run',
     'scipy.linalg.toeplitz(c) modelled as the Hermitian Toeplitz matrix with first column c (toepEntry)',
@@ -110,6 +113,55 @@ def gen_signal(nrng, N, kind):
 KINDS = ['real', 'complex', 'coloured-real', 'coloured-complex']
 
 
+def vals_of(m, key='data'):
+    """the float64 / complex128 VALUES of a field (what the model line and the oracle work from)"""
+    d = np.array(parse_clist(m[key]))
+    return d if m['cplx'] else d.real.copy()
+
+
+def arr_of(m, key='data', dkey='dt'):
+    """what the implementation is handed: the same values in the representation m[dkey]; a fresh object per call"""
+    return ar_fam.variant(vals_of(m, key), m.get(dkey))
+
+
+def tolf(m):
+    return ar_fam.tol_factor(m.get('dt'), m.get('dtv'))
+
+
+def est_call(fn, m, data):
+    """AR_est_*(x, order) / AR_est_*(None, order, rxx=r) / AR_est_*(x_unrelated, order, rxx=r)"""
+    if m['op'].endswith('x') or m['op'] == 'ldq':
+        return fn(data, m['order'])
+    if m.get('xalso'):      # a signal is passed as well: the supplied autocorrelation must win
+        return fn(np.arange(3.0 * len(data)) % 7 - 2.5, m['order'], rxx=data)
+    return fn(None, m['order'], rxx=data)
+
+
+def helper_array(m):
+    """the array handed to autocorr / autocov in an `acopt` case and the index of the signal in it"""
+    x = arr_of(m)
+    lay = m.get('layout', '1d')
+    if lay == '1d':
+        return x, None
+    other = [np.asarray(x[::-1] * 0.5 + 1.0, dtype=x.dtype), np.asarray(np.roll(x, 3) * 2.0, dtype=x.dtype)]
+    rows = other[:m['row']] + [x] + other[m['row']:]
+    a = np.array(rows)
+    return (a, -1) if lay == 'rows' else (np.ascontiguousarray(a.T), 0)
+
+
+def helper_kwargs(m, axis):
+    kw = {}
+    if axis is not None and not (axis == -1 and m.get('axis_default')):
+        kw['axis'] = axis
+    if m['all_lags'] or m.get('explicit'):
+        kw['all_lags'] = bool(m['all_lags'])
+    if not m['normalize'] or m.get('explicit'):
+        kw['normalize'] = bool(m['normalize'])
+    if m['fn'] == 'autocov' and (not m['debias'] or m.get('explicit')):
+        kw['debias'] = bool(m['debias'])
+    return kw
+
+
 # ------------------------------------------------------------------ implementation adapter
 def impl_forms(ut, data, c, p):
     """(c^H T c, (1/N) sum_t |(c * x)[t]|^2) with T = toeplitz(utils.autocorr(x)[:p+1]) built the way AR_est_YW
@@ -135,54 +187,91 @@ def run_impl(m):
     op = m['op']
     if op in ('ldx', 'ywx', 'ld', 'yw'):
         fn = ar.AR_est_LD if op.startswith('ld') else ar.AR_est_YW
-        data = np.array(parse_clist(m['data']))
-        if not m['cplx']:
-            data = data.real.copy()
+        data = arr_of(m)
         # the observed value is the SECOND of two calls on the same argument objects (a pure function
         # gives the same thing; state left behind by the first call shows up in the correspondence)
-        if op.endswith('x'):
-            return call(lambda: (fn(data, m['order']), canon_est(fn(data, m['order'])))[1])
-        return call(lambda: (fn(None, m['order'], rxx=data), canon_est(fn(None, m['order'], rxx=data)))[1])
-    if op == 'autocorr':
-        data = np.array(parse_clist(m['data']))
-        if not m['cplx']:
-            data = data.real.copy()
-        return call(lambda: 'ok ' + clist(ut.autocorr(data)[:m['nl']]))
-    if op in ('gram', 'gramq'):
-        data = np.array(parse_clist(m['data']))
-        c = np.array(parse_clist(m['c']))
-        if not m['cplx']:
-            data = data.real.copy()
-        return call(lambda: 'ok ' + clist(list(impl_forms(ut, data, c, m['order']))))
-    if op == 'ldq':
-        data = np.array(parse_clist(m['data']))
-        if not m['cplx']:
-            data = data.real.copy()
-        return call(lambda: (ar.AR_est_LD(data, m['order']), canon_est(ar.AR_est_LD(data, m['order'])))[1])
-    if op == 'psd':
-        ak = np.array(parse_clist(m['ak']))
-        if not m['cplx']:
-            ak = ak.real.copy()
+        return call(lambda: (est_call(fn, m, data), canon_est(est_call(fn, m, data)))[1])
+    if op == 'seq':
+        data = arr_of(m)
 
         def f():
-            w, p = ar.AR_psd(ak, m['sigma'], n_freqs=m['nf'], sides='onesided' if m['one'] else 'twosided')
+            toks = []
+            for ch in m['calls']:
+                a, s_ = (ar.AR_est_LD if ch == 'L' else ar.AR_est_YW)(None, m['order'], rxx=data)
+                toks += [clist(np.asarray(a).reshape(-1)), clist([complex(s_)])]
+            return 'ok ' + ' '.join(toks) + ' ' + clist(data)
+        return call(f)
+    if op == 'acopt':
+        a, axis = helper_array(m)
+        fn = getattr(ut, m['fn'])
+
+        def f():
+            out = fn(a, **helper_kwargs(m, axis))
+            if axis is not None:
+                out = out[m['row']] if axis == -1 else out[:, m['row']]
+            return 'ok ' + clist(out if m['all_lags'] else out[:m['nl']])
+        return call(f)
+    if op == 'autocorr':
+        data = arr_of(m)
+        return call(lambda: 'ok ' + clist(ut.autocorr(data)[:m['nl']]))
+    if op in ('gram', 'gramq'):
+        data = arr_of(m)
+        c = np.array(parse_clist(m['c']))
+        return call(lambda: 'ok ' + clist(list(impl_forms(ut, data, c, m['order']))))
+    if op == 'ldq':
+        data = arr_of(m)
+        return call(lambda: (ar.AR_est_LD(data, m['order']), canon_est(ar.AR_est_LD(data, m['order'])))[1])
+    if op == 'psd':
+        ak = arr_of(m, 'ak')
+
+        def f():
+            w, p = ar.AR_psd(ak, psd_sigma(m), **psd_kwargs(m))
             return 'ok %s %s' % (flist(w), flist(p))
         return call(f)
     if op == 'gen':
-        co = np.array(parse_clist(m['coefs']))
-        v = np.array(parse_clist(m['v']))
-        if not m['cplx']:
-            co, v = co.real.copy(), v.real.copy()
-
         def f():
-            u, vv, c = ut.ar_generator(N=len(v) - m['drop'], sigma=m['sigma'], coefs=co, drop_transients=m['drop'], v=v)
+            u, vv, c = ut.ar_generator(**gen_kwargs(m))
             return 'ok %s %s' % (clist(u), clist(vv))
         return call(f)
     raise ValueError(op)
 
 
+DEFAULT_COEFS = [2.7607, -3.8106, 2.6535, -0.9238]      # documented default of ar_generator(coefs=None)
+
+
+def psd_sigma(m):
+    return int(m['sigma']) if m.get('sigint') else m['sigma']
+
+
+def psd_kwargs(m):
+    kw = {}
+    if not m.get('nf_default'):
+        kw['n_freqs'] = m['nf']
+    if not (m['one'] and m.get('sides_default')):
+        kw['sides'] = 'onesided' if m['one'] else 'twosided'
+    return kw
+
+
+def gen_kwargs(m):
+    """keyword arguments of ar_generator for a case: supplied noise in the representation m['dtv'], coefficients in
+    m['dt'] (or left at their default), sigma as float / python int / default, drop_transients explicit or default"""
+    v = arr_of(m, 'v', 'dtv')
+    kw = {'N': len(v) - m['drop'], 'v': v}
+    if not m.get('coefs_default'):
+        kw['coefs'] = arr_of(m, 'coefs')
+    if not m.get('sigma_default'):
+        kw['sigma'] = int(m['sigma']) if m.get('sigint') else m['sigma']
+    if m['drop'] or not m.get('drop_default'):
+        kw['drop_transients'] = m['drop']
+    return kw
+
+
 def line_of(m):
     op = m['op']
+    if op == 'seq':
+        return 'C10 seq %d %s %s' % (m['order'], m['calls'], m['data'])
+    if op == 'acopt':
+        return 'C10 acopt %d %d %d %d %s' % (m['debias'], m['normalize'], m['all_lags'], m['nl'], m['data'])
     if op in ('ldx', 'ywx', 'ld', 'yw'):
         return 'C10 %s %d %s' % (op, m['order'], m['data'])
     if op == 'autocorr':
@@ -206,7 +295,9 @@ def parse_groups(s):
     return s.split()[1:]
 
 
-def cmp_est(scale_r0):
+def cmp_est(scale_r0, k=1.0):
+    """coefficients (dimensionless) relative to their largest magnitude, sigma relative to R(0); `k` loosens both for
+    single-precision representations and for nearly singular systems (k ~ cond * 1e-3)"""
     def f(impl, model):
         a, b = parse_groups(impl), parse_groups(model)
         if a is None or b is None:
@@ -214,7 +305,21 @@ def cmp_est(scale_r0):
         ai, si = parse_clist(a[0]), parse_clist(a[1])
         am, sm = parse_clist(b[0]), parse_clist(b[1])
         fl = lambda zs: [t for z in zs for t in (z.real, z.imag)]
-        return close_vec(fl(ai), fl(am), 1e-9, 1e-300) and close_vec(fl(si), fl(sm), 0.0, 1e-9 * scale_r0)
+        return close_vec(fl(ai), fl(am), 1e-9 * k, 1e-300) and close_vec(fl(si), fl(sm), 0.0, 1e-9 * k * scale_r0)
+    return f
+
+
+def cmp_seq(scale_r0):
+    """'ok a1 s1 a2 s2 ... r_after': every call like cmp_est; the array afterwards exactly"""
+    def f(impl, model):
+        a, b = parse_groups(impl), parse_groups(model)
+        if a is None or b is None or len(a) != len(b):
+            return impl == model
+        one = cmp_est(scale_r0)
+        for i in range(0, len(a) - 1, 2):
+            if not one('ok %s %s' % (a[i], a[i + 1]), 'ok %s %s' % (b[i], b[i + 1])):
+                return False
+        return parse_clist(a[-1]) == parse_clist(b[-1])
     return f
 
 
@@ -337,10 +442,10 @@ def judge_value(m, impl, clause):
         if not np.all(np.isfinite(a)):
             return fail('nonfinite', 'non-finite coefficients')
         res = np.abs(T.dot(a) - y).max()
-        if res > 1e-9 * scale * max(1.0, cond * 1e-3):
+        if res > 1e-9 * tolf(m) * scale * max(1.0, cond * 1e-3):
             return fail('normal-equations', 'Toeplitz residual %.3g (scale %.3g, cond %.3g)' % (res, scale, cond))
         want = (r[0] - np.sum(a * np.conj(r[1:p + 1])))
-        tol = 1e-9 * abs(r[0]) * max(1.0, cond * 1e-3)
+        tol = 1e-9 * tolf(m) * abs(r[0]) * max(1.0, cond * 1e-3)
         if abs(s.imag) > 0 or abs(s.real - want.real) > tol or abs(want.imag) > tol * 10:
             return fail('sigma', 'sigma %r, R(0)-sum a_k conj R(k) = %r' % (s, want))
         if m.get('psd_valid'):
@@ -351,22 +456,66 @@ def judge_value(m, impl, clause):
                 return fail('stability', 'fitted model has a root of modulus %.6f' % np.abs(roots).max())
         # the two estimators agree
         other = ar.AR_est_YW if op.startswith('ld') else ar.AR_est_LD
-        data = np.array(parse_clist(m['data']))
-        if not m['cplx']:
-            data = data.real.copy()
+        data = arr_of(m)
         try:
-            a2, s2 = other(data, p) if op.endswith('x') else other(None, p, rxx=data)
+            a2, s2 = est_call(other, m, data)
         except Exception as e:  # noqa
             return fail('agree', 'the other estimator raised %r' % (e,))
-        tola = 1e-9 * max(np.abs(a).max(), 1e-300) * max(1.0, cond)
+        tola = 1e-9 * tolf(m) * max(np.abs(a).max(), 1e-300) * max(1.0, cond)
         if np.abs(np.asarray(a2) - a).max() > tola or abs(complex(s2) - s) > tol * 10:
             return fail('agree', 'LD and YW differ: max |da| = %.3g, d sigma = %.3g' % (np.abs(np.asarray(a2) - a).max(), abs(complex(s2) - s)))
+        if 'pow2' in m:         # the equations are homogeneous: the data scaled by an exact power of two give the same coefficients
+            fn = ar.AR_est_LD if op.startswith('ld') else ar.AR_est_YW
+            k = m['pow2']
+            a3, s3 = est_call(fn, m, ar_fam.variant(vals_of(m) * 2.0 ** k, m.get('dt')))
+            ks = 2 * k if op.endswith('x') else k
+            if np.abs(np.asarray(a3) - a).max() > 1e-9 * max(np.abs(a).max(), 1e-300) * max(1.0, cond) or abs(complex(s3) / 2.0 ** ks - s) > tol * 10:
+                return fail('scale-invariance', 'input scaled by 2^%d: coefficients change by %.3g, sigma ratio off by %.3g'
+                            % (k, np.abs(np.asarray(a3) - a).max(), abs(complex(s3) / 2.0 ** ks - s)))
         if 'true_ak' in m:
             ta = np.array(parse_clist(m['true_ak']))
             if np.abs(ta - a).max() > 1e-7 * max(np.abs(ta).max(), 1.0) * max(1.0, cond * 1e-2):
                 return fail('recovery', 'exact autocovariance of a stable AR process: coefficients off by %.3g' % np.abs(ta - a).max())
             if abs(s - m['true_sigma']) > 1e-7 * m['true_sigma'] * max(1.0, cond * 1e-2):
                 return fail('recovery-sigma', 'innovation variance %r, true %r' % (s, m['true_sigma']))
+        return None
+    if op == 'seq':
+        # one array, several estimator calls: every call must satisfy the clauses of a single call, all innovation
+        # variances coincide, and the array handed in still holds what it held
+        toks = g
+        n = len(m['calls'])
+        if len(toks) != 2 * n + 1:
+            return fail('shape', 'expected %d results' % n)
+        sig = []
+        for i, ch in enumerate(m['calls']):
+            sub = dict(m, op='ld' if ch == 'L' else 'yw')
+            f = judge_value(sub, 'ok %s %s' % (toks[2 * i], toks[2 * i + 1]), clause)
+            if f:
+                f.key = '%s/call%d-%s/%s' % (clause, i + 1, ch, f.key.rsplit('/', 1)[-1])
+                f.what = 'call #%d (%s) of the program %s on one array: %s' % (i + 1, ch, m['calls'], f.what)
+                f.replay = {'meta': m, 'clause': clause}
+                return f
+            sig.append(parse_clist(toks[2 * i + 1])[0])
+        r = r_of(dict(m, op='ld'))
+        if max(abs(z - sig[0]) for z in sig) > 1e-8 * abs(r[0]):
+            return fail('sigma-differs-between-calls', 'program %s on one array: innovation variances %r' % (m['calls'], sig))
+        after = np.array(parse_clist(toks[-1]))
+        if after.shape != vals_of(m).shape or not np.array_equal(after, np.asarray(vals_of(m), dtype=complex)):
+            return fail('argument-mutated', 'the autocorrelation array handed in was changed by the program ' + m['calls'])
+        return None
+    if op == 'acopt':
+        got = np.array(parse_clist(g[0]))
+        x = np.asarray(vals_of(m), dtype=complex)
+        n = len(x)
+        xm = x - x.mean() if m['debias'] else x
+        c = np.array([np.sum(xm[k:] * np.conj(xm[:n - k])) for k in range(n)]) / (n if m['normalize'] else 1.0)
+        want = np.r_[np.conj(c[:0:-1]), c] if m['all_lags'] else c[:m['nl']]
+        sc = max(abs(c[0]), 1e-300)
+        if got.shape != want.shape:
+            return fail('shape', '%d values, expected %d' % (len(got), len(want)))
+        if not np.abs(got - want).max() <= 1e-9 * tolf(m) * sc:
+            return fail('value', '%s(debias=%s, normalize=%s, all_lags=%s, layout %s) differs from its definition by %.3g (scale %.3g)'
+                        % (m['fn'], bool(m['debias']), bool(m['normalize']), bool(m['all_lags']), m.get('layout', '1d'), np.abs(got - want).max(), sc))
         return None
     if op in ('gram', 'gramq'):
         # the Toeplitz matrix the code builds from utils.autocorr is the Gram matrix of the shifted signal:
@@ -386,7 +535,7 @@ def judge_value(m, impl, clause):
     if op == 'autocorr':
         got = np.array(parse_clist(g[0]))
         want = direct_autocorr(np.array(parse_clist(m['data'])), m['nl'])
-        if len(got) != len(want) or np.abs(got - want).max() > 1e-9 * np.abs(want).max():
+        if len(got) != len(want) or np.abs(got - want).max() > 1e-9 * tolf(m) * np.abs(want).max():
             return fail('value', 'autocorr differs from (1/N) sum x[n+k] conj x[n] by %.3g' % np.abs(got - want).max())
         return None
     if op == 'psd':
@@ -398,7 +547,7 @@ def judge_value(m, impl, clause):
             return fail('shape', 'grid/psd lengths %d/%d, expected %d' % (len(w), len(psd), n_exp))
         den = 1 - sum(ak[k] * np.exp(-1j * w * (k + 1)) for k in range(len(ak)))
         want = m['sigma'] / np.abs(den) ** 2 * (2 if m['one'] else 1)
-        if np.abs(psd - want).max() > 1e-9 * np.abs(want).max():
+        if np.abs(psd - want).max() > 1e-9 * tolf(m) * np.abs(want).max():
             return fail('formula', 'psd differs from %ssigma/|1-sum a e^{-iwk}|^2 on the returned grid by %.3g (max %.3g)' % (
                 '2*' if m['one'] else '', np.abs(psd - want).max(), np.abs(want).max()))
         return None
@@ -415,7 +564,7 @@ def judge_value(m, impl, clause):
         for n in range(0 if m['drop'] == 0 else P, len(u)):
             pred = sum(co[k] * u[n - 1 - k] for k in range(min(n, P))) + np.sqrt(m['sigma']) * v[n]
             worst = max(worst, abs(pred - u[n]))
-        if worst > 1e-9 * sc:
+        if worst > 1e-9 * tolf(m) * sc:
             return fail('recursion', 'u[n] - sum a_k u[n-k] - sqrt(sigma) v[n] = %.3g (scale %.3g)' % (worst, sc))
         return None
     return None
@@ -433,14 +582,11 @@ def sequence_judge(m, clause):
     def fail(sym):
         return Failure('%s/sequence/%s' % (clause, sym), '%s: call sequence on the same argument objects: %s [op %s]' % (clause, sym, op),
                        {'meta': m, 'clause': clause})
-    cx = lambda k: (np.array(parse_clist(m[k])) if m['cplx'] else np.array(parse_clist(m[k])).real.copy())
+    cx = lambda k: arr_of(m, k, 'dtv' if k == 'v' else 'dt')
     if op in ('ldx', 'ywx', 'ld', 'yw'):
         data = cx('data')
         p = m['order']
-        if op.endswith('x'):
-            rt = {'LD': lambda: ar.AR_est_LD(data, p), 'YW': lambda: ar.AR_est_YW(data, p)}
-        else:
-            rt = {'LD': lambda: ar.AR_est_LD(None, p, rxx=data), 'YW': lambda: ar.AR_est_YW(None, p, rxx=data)}
+        rt = {'LD': lambda: est_call(ar.AR_est_LD, m, data), 'YW': lambda: est_call(ar.AR_est_YW, m, data)}
         first = 'LD' if op.startswith('ld') else 'YW'
         other = 'YW' if first == 'LD' else 'LD'
         syms = ar_seq.run_schedule(rt, [first, other, first, other, other, first], [data])
@@ -450,6 +596,12 @@ def sequence_judge(m, clause):
                  (lambda arr, o: (ar.AR_est_LD if first == 'LD' else ar.AR_est_YW)(None, o, rxx=arr))
             if op.endswith('x') or np.linalg.cond(toeplitz_h(data2, p)) < COND_MAX:
                 syms = ar_seq.refill_check(fn, data, data2, [p, max(1, p - 1)])
+    elif op == 'acopt':
+        a, axis = helper_array(m)
+        kw = helper_kwargs(m, axis)
+        fn = getattr(ut, m['fn'])
+        syms = ar_seq.run_schedule({'h': lambda: fn(a, **kw), 'plain': lambda: ut.autocorr(a, **({'axis': axis} if axis is not None else {}))},
+                                   ['h', 'plain', 'h', 'plain', 'h'], [a])
     elif op in ('autocorr', 'gram', 'gramq'):
         data = cx('data')
         syms = ar_seq.run_schedule({'autocorr': lambda: ut.autocorr(data)}, ['autocorr'] * 3, [data])
@@ -458,13 +610,13 @@ def sequence_judge(m, clause):
     elif op == 'psd':
         ak = cx('ak')
         sides = 'onesided' if m['one'] else 'twosided'
-        syms = ar_seq.run_schedule({'psd': lambda: ar.AR_psd(ak, m['sigma'], n_freqs=m['nf'], sides=sides)}, ['psd'] * 3, [ak])
+        syms = ar_seq.run_schedule({'psd': lambda: ar.AR_psd(ak, psd_sigma(m), **psd_kwargs(m))}, ['psd'] * 3, [ak])
         if not syms:
             syms = ar_seq.refill_check(lambda arr, nf: ar.AR_psd(arr, m['sigma'], n_freqs=nf, sides=sides), ak, ak * 0.5, [m['nf'], m['nf'] + 1])
     elif op == 'gen':
-        co, v = cx('coefs'), cx('v')
-        rt = {'gen': lambda: ut.ar_generator(N=len(v) - m['drop'], sigma=m['sigma'], coefs=co, drop_transients=m['drop'], v=v)}
-        syms = ar_seq.run_schedule(rt, ['gen'] * 3, [co, v])
+        kw = gen_kwargs(m)
+        rt = {'gen': lambda: ut.ar_generator(**kw)}
+        syms = ar_seq.run_schedule(rt, ['gen'] * 3, [kw.get('coefs', np.zeros(1)), kw['v']])
     else:
         syms = []
     return fail(syms[0]) if syms else None
@@ -659,6 +811,220 @@ def cases(rng, tier, seed):
         sig = float(nrng.choice([1.0, 2.0, 0.25, nrng.uniform(0.1, 5)]))
         m = {'op': 'gen', 'drop': drop, 'sigma': sig, 'coefs': clist(co), 'v': clist(v), 'cplx': cplx}
         out.append(mk_case(m, 'gen/' + ('complex' if cplx else 'real'), cmp_groups('cc')))
+    session3_cases(nrng, big, out, est_case)
+    out += rerun_cases(nrng, out, big)
+    return out
+
+
+# ------------------------------------------------------------------ session 3: input families, options, boundaries, histories
+def int_rxx_enabled():
+    """integer-typed SUPPLIED autocorrelation arrays make the unchanged AR_est_LD return truncated coefficients
+    (finding est/LD/supplied/int-dtype/*, proposed_fixes/C10-ld-integer-rxx.diff).  The cases are generated once the
+    finding is registered in known_findings.json (status known -> KNOWN-FINDING; status fixed -> must pass)."""
+    import json, os
+    if os.environ.get('VERIF_C10_INT_RXX'):         # builder's switch for trying the cases before the finding is registered
+        return True
+    try:
+        d = json.load(open(os.path.join(os.path.dirname(os.path.dirname(os.path.abspath(__file__))), 'known_findings.json')))
+        return any(f.get('property') == 'C10' and 'supplied/int-dtype' in str(f.get('key', '')) for f in d.get('findings', []))
+    except Exception:  # noqa
+        return False
+
+
+def session3_cases(nrng, big, out, est_case):
+    reps = 1 if not big else 6
+    SIG_KINDS = ['int16', 'int32', 'int64', 'float32', 'complex64', 'strided', 'readonly', 'bigendian']
+    for rep in range(reps):
+        # --- L1: signals in other representations (computed autocorrelation), both estimators, helper, Gram identity
+        for kind in SIG_KINDS:
+            cplx = kind == 'complex64' or (kind in ('strided', 'readonly') and rep % 2 == 1)
+            N = int(nrng.choice([32, 64, 100]))
+            x = gen_signal(nrng, N, 'complex' if cplx else 'real')
+            x = x / (np.abs(x).max() or 1.0) * 3.0
+            x = ar_fam.prepare(x, kind)
+            order = int(nrng.randint(1, 4))
+            r = direct_autocorr(x, order + 1)
+            cond = float(np.linalg.cond(toeplitz_h(r, order)))
+            if ar_fam.lowp(kind) and not cond < 20:
+                continue
+            k = ar_fam.tol_factor(kind) * max(1.0, cond if ar_fam.lowp(kind) else 1.0)
+            for op in ('ldx', 'ywx'):
+                m = {'op': op, 'order': order, 'data': clist(x), 'cplx': cplx, 'dt': kind, 'psd_valid': True}
+                out.append(mk_case(m, 'est/%s/computed/dtype/%s' % (op[:2].upper(), kind), cmp_est(abs(r[0]), k)))
+            m = {'op': 'autocorr', 'nl': int(nrng.randint(1, 9)), 'data': clist(x), 'cplx': cplx, 'dt': kind}
+            out.append(mk_case(m, 'autocorr/dtype/' + kind, cmp_groups('c', rtol=1e-9 * ar_fam.tol_factor(kind))))
+        # --- L1: supplied autocorrelation in other representations (big-endian is not generated: scipy.linalg.solve
+        #     itself misreads non-native byte order); integer arrays: see int_rxx_enabled
+        rkinds = ['float32', 'complex64', 'strided', 'readonly'] + (['int32', 'int64'] if int_rxx_enabled() else [])
+        for kind in rkinds:
+            cplx = kind == 'complex64' or (kind in ('strided', 'readonly') and rep % 2 == 0)
+            order = int(nrng.randint(2, 5))
+            x = gen_signal(nrng, 64, 'complex' if cplx else 'real')
+            x = x / (np.abs(x).max() or 1.0)
+            r = direct_autocorr(x, order + 2)
+            r[0] = r[0].real
+            if not cplx:
+                r = r.real.astype(float)
+            if kind in ar_fam.INT_KINDS:
+                r = np.round(r / abs(r[0]) * 1000.0)            # e.g. unnormalised integer lag sums of integer counts
+            r = ar_fam.prepare(r, kind) if kind not in ar_fam.INT_KINDS else r
+            cond = float(np.linalg.cond(toeplitz_h(r, order)))
+            if not cond < 20:
+                continue
+            k = ar_fam.tol_factor(kind) * (cond if ar_fam.lowp(kind) else 1.0)
+            tag = 'int-dtype' if kind in ar_fam.INT_KINDS else 'dtype/' + kind
+            for op in ('ld', 'yw'):
+                m = {'op': op, 'order': order, 'data': clist(r), 'cplx': cplx, 'dt': kind, 'psd_valid': True}
+                if rep % 2 == 0 and kind == 'readonly':
+                    m['xalso'] = True
+                out.append(mk_case(m, 'est/%s/supplied/%s' % (op.upper(), tag), cmp_est(abs(r[0]), k)))
+        # --- L2: programs of calls on ONE supplied array (every order of the two estimators)
+        for calls in (['LY', 'YL', 'LLY', 'LYL', 'YLL', 'YYL', 'LYLY'] if rep == 0 else ['LY', 'YLY', 'LLYY']):
+            cplx = bool(nrng.rand() < 0.5)
+            order = int(nrng.randint(1, 6))
+            x = gen_signal(nrng, 64, 'coloured-complex' if cplx else 'coloured-real')
+            r = direct_autocorr(x, order + 1 + int(nrng.randint(0, 3)))
+            r[0] = r[0].real
+            if not cplx:
+                r = r.real.astype(float)
+            r = r * float(nrng.choice([1.0, 1e-12, 1e6, 37.5]))
+            if not np.linalg.cond(toeplitz_h(r, order)) < 1e3:
+                continue
+            m = {'op': 'seq', 'order': order, 'calls': calls, 'data': clist(r), 'cplx': cplx, 'psd_valid': True}
+            out.append(mk_case(m, 'est/program/' + calls, cmp_seq(abs(r[0]))))
+        # --- L3: keyword arguments of the covariance helpers (axis, all_lags, debias, normalize), 1-d and 2-d inputs
+        t = 0
+        for fn in ('autocorr', 'autocov'):
+            for (deb, nrm, alll) in [(0, 1, 0), (1, 1, 0), (0, 0, 0), (1, 0, 1), (0, 1, 1), (1, 1, 1)]:
+                if fn == 'autocorr' and deb:
+                    continue
+                t += 1
+                cplx = bool(t % 2)
+                N = int(nrng.choice([5, 8, 16, 33]))
+                x = gen_signal(nrng, N, 'complex' if cplx else 'real')
+                x = x / (np.abs(x).max() or 1.0) + (0.5 if t % 3 == 0 else 0.0)
+                lay = ['1d', 'rows', 'cols'][t % 3]
+                m = {'op': 'acopt', 'fn': fn, 'debias': deb, 'normalize': nrm, 'all_lags': alll, 'nl': int(nrng.randint(1, N + 1)),
+                     'data': clist(x), 'cplx': cplx, 'layout': lay, 'row': int(nrng.randint(0, 3)), 'explicit': bool(t % 4 == 0),
+                     'axis_default': bool(lay == 'rows' and t % 2 == 0)}
+                if t % 5 == 0:
+                    m['dt'] = 'readonly'
+                out.append(mk_case(m, 'helper/%s/%s%s%s/%s' % (fn, 'debias' if deb else 'raw', '' if nrm else '-unnormalised', '-all_lags' if alll else '', lay),
+                                   cmp_groups('c')))
+        # --- L3: AR_psd with n_freqs / sides left at their defaults, integer sigma_v, coefficient arrays in other representations
+        for t, kind in enumerate([None, 'float32', 'readonly', 'strided', 'int64', None]):
+            cplx = False
+            p = int(nrng.randint(1, 6))
+            ak = stable_coefs(nrng, p, cplx, 0.85)
+            if kind == 'int64':
+                ak = np.zeros(p)
+                ak[-1] = 0.0
+            elif kind:
+                ak = ar_fam.prepare(ak, kind)
+            m = {'op': 'psd', 'one': bool(t % 2 == 0), 'nf': [1024, 2, 3, 1, 16, 1024][t], 'sigma': [1.0, 2.0, 0.5, 3.0, 4.0, 2.0][t], 'ak': clist(ak),
+                 'cplx': cplx, 'dt': kind}
+            if m['nf'] == 1024:
+                m['nf_default'] = True
+            if t == 0:
+                m['sides_default'] = True
+            if t in (1, 3, 4):
+                m['sigint'] = True
+            out.append(mk_case(m, 'psd/options/%s' % (kind or 'defaults'), cmp_groups('ff', rtol=1e-9 * ar_fam.tol_factor(kind))))
+        # --- L1/L3: ar_generator: default coefficients / sigma / drop_transients, integer sigma, other representations
+        for t, (kc, kv) in enumerate([(None, None), ('float32', None), ('readonly', 'readonly'), (None, 'int64'), ('strided', 'float32'), ('int64', 'strided')]):
+            p = int(nrng.randint(1, 5))
+            co = stable_coefs(nrng, p, False, 0.85)
+            drop = int([0, 3, 0, 5, 0, 2][t])
+            N = int(nrng.choice([3, 8, 20]))
+            v = nrng.randn(N + drop)
+            m = {'op': 'gen', 'drop': drop, 'sigma': float([1.0, 2.0, 4.0, 0.25, 1.0, 9.0][t]), 'cplx': False, 'dt': kc, 'dtv': kv}
+            if t == 0:
+                m.update(coefs_default=True, sigma_default=True, drop_default=True)
+                co = np.array(DEFAULT_COEFS)
+            if kc == 'int64':
+                co = np.array([1.0, 0.0][:p] + [0.0] * max(0, p - 2))        # u[n] = u[n-1] + v[n]: a random walk is a valid recursion
+            elif kc:
+                co = ar_fam.prepare(co, kc)
+            if kv == 'int64':
+                v = np.round(v * 5)
+            elif kv:
+                v = ar_fam.prepare(v, kv)
+            if t in (2, 5):
+                m['sigint'] = True
+            m.update(coefs=clist(co), v=clist(v))
+            out.append(mk_case(m, 'gen/options/%s+%s' % (kc or 'f8', kv or 'f8'), cmp_groups('cc', rtol=1e-9 * ar_fam.tol_factor(kc, kv))))
+        # --- L4: amplitudes 1e-150 .. 1e150 (autocorrelations 1e-300 .. 1e300) and nearly singular systems
+        for t, amp in enumerate([1e-150, 1e150, 1e-100, 1e100, 1e-40, 1e40]):
+            cplx = bool(t % 2)
+            N = int(nrng.choice([32, 64]))
+            x = gen_signal(nrng, N, 'coloured-complex' if cplx else 'coloured-real')
+            x = x / (np.abs(x).max() or 1.0) * amp
+            order = int(nrng.randint(1, 5))
+            pw = 300 if amp < 1 else -300
+            n0 = len(out)
+            for op in ('ldx', 'ywx'):
+                est_case(op, x, order, cplx, 'est/%s/computed/amplitude' % op[:2].upper(), {'psd_valid': True, 'pow2': pw})
+            r = direct_autocorr(x / amp, order + 1) * amp * amp
+            r[0] = r[0].real
+            if not cplx:
+                r = r.real.astype(float)
+            for op in ('ld', 'yw'):
+                est_case(op, r, order, cplx, 'est/%s/supplied/amplitude' % op.upper(), {'psd_valid': True, 'pow2': 2 * pw})
+        for t in range(4):
+            # a sinusoid in very little noise: toeplitz(R) is positive definite with a condition number up to ~1e8
+            N = 128
+            f0 = float(nrng.uniform(0.05, 0.4))
+            x = np.cos(2 * np.pi * f0 * np.arange(N) + 0.3) + float(nrng.choice([1e-2, 3e-3, 1e-3])) * nrng.randn(N)
+            order = 2 + t % 2
+            r = direct_autocorr(x, order + 1).real
+            cond = float(np.linalg.cond(toeplitz_h(r, order)))
+            if not cond < 1e9:
+                STATS['skipped_ill_conditioned'] += 1
+                continue
+            k = max(1.0, cond * 1e-3)
+            for op in ('ldx', 'ywx'):
+                m = {'op': op, 'order': order, 'data': clist(x), 'cplx': False, 'psd_valid': True}
+                out.append(mk_case(m, 'est/%s/computed/near-singular' % op[:2].upper(), cmp_est(abs(r[0]), k)))
+
+
+def perturb(nrng):
+    """L2 perturbation phase: the entry points with other option values; everything handed out is overwritten
+    (a call that raises here is not this phase's business)"""
+    try:
+        _perturb(nrng)
+    except Exception:  # noqa
+        pass
+
+
+def _perturb(nrng):
+    import histories, warnings
+    warnings.simplefilter('ignore')
+    ar, ut = mods()
+    x = nrng.randn(48)
+    z = nrng.randn(48) + 1j * nrng.randn(48)
+    held = []
+    for sig in (x, z, np.round(x * 20).astype('int32'), x.astype('float32')):
+        held += [ut.autocorr(sig), ut.autocov(sig), ut.autocorr(sig, all_lags=True), ut.autocov(sig, debias=False, normalize=False)]
+        held += [ar.AR_est_LD(sig, 3), ar.AR_est_YW(sig, 2)]
+    rxx = ut.autocorr(x)
+    held += [ar.AR_est_LD(None, 4, rxx=rxx), ar.AR_est_YW(None, 4, rxx=rxx), ar.AR_est_LD(None, 2, rxx=rxx)]
+    held += [ar.AR_psd(np.array([0.5, -0.2]), 2.0), ar.AR_psd(np.array([0.5, -0.2]), 2.0, n_freqs=7, sides='twosided')]
+    held += [ut.ar_generator(N=16, v=nrng.randn(16)), ut.ar_generator(N=8, sigma=2.0, coefs=np.array([0.3]), drop_transients=4, v=nrng.randn(12))]
+    histories.scribble(held)
+
+
+def rerun_cases(nrng, sofar, big):
+    """L2: after all ordinary cases and the perturbation phase a sample of them is evaluated AGAIN on fresh argument
+    objects: same protocol line, so the implementation must return what the model returns, as before"""
+    perturb(nrng)
+    groups = {}
+    for c in sofar:
+        groups.setdefault((c.meta['op'], c.clause.split('/')[1] if '/' in c.clause else ''), []).append(c)
+    out = []
+    for key in sorted(groups):
+        lst = groups[key]
+        for c in lst[::max(1, len(lst) // (2 if not big else 10))][:2 if not big else 10]:
+            out.append(Case(c.line, run_impl(c.meta), c.clause + '/rerun', cmp=c.cmp, meta=c.meta, nontrivial=False))
     return out
 
 
